@@ -130,6 +130,145 @@ Check jacobian_legacy_is_refuted :
   exists J evs, jacobian (NReal AQ) f31 x31 d31 = Ok (J, evs) /\
                 rows J = 1%nat /\ cols J = 3%nat /\ map this (buf J) = [1#1; 2#1; 3#1]%Q.
 Print Assumptions jacobian_legacy_is_refuted.
+(* ======================================================================================
+   C18, round two (package newton2) -- to be appended at the END of Props/C18.v.
+   The O(delta) claim, over the reals (NRl = the real instance of Proofs/NewtonReal.v): whatever matrix
+   Mat64::jacobian returns, entry (i, j) differs from the partial derivative d f_i / d x_j at x by at most
+   (|delta| / 2) * sup |d^2 f_i / d x_j^2| over the segment between x and x + delta e_j.
+   g is the restriction of component i to that segment, g(t) = f_i(x + t e_j); g1 = g', g2 = g''.
+   Still not proved: float rounding of the quotient (tie + search). *)
+From Coq Require Import Reals Lra.
+From OV Require Import Proofs.NewtonReal Proofs.Newton2Jac.
+Local Close Scope R_scope.
+Local Open Scope nat_scope.
+
+Theorem jacobian_truncation : forall (F : list R -> res (list R)) (x : list R) (dl : R) (J : matrix AR) evs,
+  jacobian NRl F x dl = Ok (J, evs) ->
+  forall (i j : nat) (g g1 g2 : R -> R) (B : R),
+  i < rows J -> j < length x ->
+  (forall t, (Rmin 0 dl <= t <= Rmax 0 dl)%R -> exists v, F (perturbed NRl x t j) = Ok v /\ nth i v 0%R = g t) ->
+  (forall t, (Rmin 0 dl <= t <= Rmax 0 dl)%R -> derivable_pt_lim g t (g1 t)) ->
+  (forall t, (Rmin 0 dl <= t <= Rmax 0 dl)%R -> derivable_pt_lim g1 t (g2 t)) ->
+  (forall t, (Rmin 0 dl <= t <= Rmax 0 dl)%R -> (Rabs (g2 t) <= B)%R) ->
+  exists q : R, mget J i j = Ok q /\ (Rabs (q - g1 0) <= Rabs dl / 2 * B)%R.
+Proof. exact jacobian_truncation_lemma. Qed.
+Check jacobian_truncation : forall (F : list R -> res (list R)) (x : list R) (dl : R) (J : matrix AR) evs,
+  jacobian NRl F x dl = Ok (J, evs) ->
+  forall (i j : nat) (g g1 g2 : R -> R) (B : R),
+  i < rows J -> j < length x ->
+  (forall t, (Rmin 0 dl <= t <= Rmax 0 dl)%R -> exists v, F (perturbed NRl x t j) = Ok v /\ nth i v 0%R = g t) ->
+  (forall t, (Rmin 0 dl <= t <= Rmax 0 dl)%R -> derivable_pt_lim g t (g1 t)) ->
+  (forall t, (Rmin 0 dl <= t <= Rmax 0 dl)%R -> derivable_pt_lim g1 t (g2 t)) ->
+  (forall t, (Rmin 0 dl <= t <= Rmax 0 dl)%R -> (Rabs (g2 t) <= B)%R) ->
+  exists q : R, mget J i j = Ok q /\ (Rabs (q - g1 0) <= Rabs dl / 2 * B)%R.
+Print Assumptions jacobian_truncation.
+
+(* F(x, y) = (x^2 y, x + y^3) at (1, 2), delta = 1/4, entry (0, 0): g(t) = 2 (1 + t)^2, g' = 4 (1 + t), g'' = 4 = B;
+   the entry is 9/2, the partial derivative 4, and the bound (1/4)/2 * 4 = 1/2 is attained *)
+Example jacobian_truncation_nonvacuous :
+  exists J evs, jacobian NRl Fw [1%R; 2%R] (1 / 4)%R = Ok (J, evs) /\ 0 < rows J /\
+    (forall t, (Rmin 0 (1 / 4) <= t <= Rmax 0 (1 / 4))%R ->
+       exists v, Fw (perturbed NRl [1%R; 2%R] t 0) = Ok v /\ nth 0 v 0%R = (2 * ((1 + t) * (1 + t)))%R) /\
+    (forall t, derivable_pt_lim (fun t => 2 * ((1 + t) * (1 + t)))%R t (4 * (1 + t))%R) /\
+    (forall t, derivable_pt_lim (fun t => 4 * (1 + t))%R t 4%R) /\
+    (Rabs 4 <= 4)%R.
+Proof. exact jacobian_truncation_witness. Qed.
+
+(* the calculus behind it, either sign of the step: |(g(d) - g(0))/d - g'(0)| <= (|d|/2) sup |g''| *)
+Theorem forward_difference_truncation : forall (g g1 g2 : R -> R) (d B : R),
+  (forall t, (Rmin 0 d <= t <= Rmax 0 d)%R -> derivable_pt_lim g t (g1 t)) ->
+  (forall t, (Rmin 0 d <= t <= Rmax 0 d)%R -> derivable_pt_lim g1 t (g2 t)) ->
+  (forall t, (Rmin 0 d <= t <= Rmax 0 d)%R -> (Rabs (g2 t) <= B)%R) ->
+  d <> 0%R ->
+  (Rabs ((g d - g 0) / d - g1 0) <= Rabs d / 2 * B)%R.
+Proof. exact fwd_diff_trunc. Qed.
+Check forward_difference_truncation : forall (g g1 g2 : R -> R) (d B : R),
+  (forall t, (Rmin 0 d <= t <= Rmax 0 d)%R -> derivable_pt_lim g t (g1 t)) ->
+  (forall t, (Rmin 0 d <= t <= Rmax 0 d)%R -> derivable_pt_lim g1 t (g2 t)) ->
+  (forall t, (Rmin 0 d <= t <= Rmax 0 d)%R -> (Rabs (g2 t) <= B)%R) ->
+  d <> 0%R ->
+  (Rabs ((g d - g 0) / d - g1 0) <= Rabs d / 2 * B)%R.
+Print Assumptions forward_difference_truncation.
+(* non-vacuity: jacobian_truncation_nonvacuous exhibits g, g', g'' = 4 on [0, 1/4] *)
+
+(* the complex Jacobian (Matrix::<Cmplx>::jacobian_cmplx at Newton2Inst.NCR = NCplx SolveC.SAR): the step is the REAL
+   number delta, embedded as (delta, 0); gr, gi are the real and imaginary parts of f_i(x + t e_j) for real t *)
+From OV Require Model.Complex Proofs.SolveR Proofs.SolveC Proofs.Newton2Inst Proofs.Newton2JacC.
+Theorem jacobian_truncation_C : forall (F : list SolveC.ACR -> res (list SolveC.ACR)) (x : list SolveC.ACR) (dl : R)
+    (J : matrix SolveC.ACR) evs,
+  jacobian Newton2Inst.NCR F x (emb Newton2Inst.NCR dl) = Ok (J, evs) ->
+  forall (i j : nat) (gr gr1 gr2 gi gi1 gi2 : R -> R) (Br Bi : R),
+  i < rows J -> j < length x ->
+  (forall t, (Rmin 0 dl <= t <= Rmax 0 dl)%R ->
+     exists v, F (perturbed Newton2Inst.NCR x (Complex.mkC (A:=SolveR.AR) t 0%R) j) = Ok v /\
+               Complex.re (nth i v (zero : SolveC.ACR)) = gr t /\ Complex.im (nth i v (zero : SolveC.ACR)) = gi t) ->
+  (forall t, (Rmin 0 dl <= t <= Rmax 0 dl)%R -> derivable_pt_lim gr t (gr1 t)) ->
+  (forall t, (Rmin 0 dl <= t <= Rmax 0 dl)%R -> derivable_pt_lim gr1 t (gr2 t)) ->
+  (forall t, (Rmin 0 dl <= t <= Rmax 0 dl)%R -> (Rabs (gr2 t) <= Br)%R) ->
+  (forall t, (Rmin 0 dl <= t <= Rmax 0 dl)%R -> derivable_pt_lim gi t (gi1 t)) ->
+  (forall t, (Rmin 0 dl <= t <= Rmax 0 dl)%R -> derivable_pt_lim gi1 t (gi2 t)) ->
+  (forall t, (Rmin 0 dl <= t <= Rmax 0 dl)%R -> (Rabs (gi2 t) <= Bi)%R) ->
+  exists q : SolveC.ACR, mget J i j = Ok q /\
+    (Rabs (Complex.re q - gr1 0) <= Rabs dl / 2 * Br)%R /\ (Rabs (Complex.im q - gi1 0) <= Rabs dl / 2 * Bi)%R.
+Proof. exact Newton2JacC.jacobian_truncation_C_lemma. Qed.
+Check jacobian_truncation_C : forall (F : list SolveC.ACR -> res (list SolveC.ACR)) (x : list SolveC.ACR) (dl : R)
+    (J : matrix SolveC.ACR) evs,
+  jacobian Newton2Inst.NCR F x (emb Newton2Inst.NCR dl) = Ok (J, evs) ->
+  forall (i j : nat) (gr gr1 gr2 gi gi1 gi2 : R -> R) (Br Bi : R),
+  i < rows J -> j < length x ->
+  (forall t, (Rmin 0 dl <= t <= Rmax 0 dl)%R ->
+     exists v, F (perturbed Newton2Inst.NCR x (Complex.mkC (A:=SolveR.AR) t 0%R) j) = Ok v /\
+               Complex.re (nth i v (zero : SolveC.ACR)) = gr t /\ Complex.im (nth i v (zero : SolveC.ACR)) = gi t) ->
+  (forall t, (Rmin 0 dl <= t <= Rmax 0 dl)%R -> derivable_pt_lim gr t (gr1 t)) ->
+  (forall t, (Rmin 0 dl <= t <= Rmax 0 dl)%R -> derivable_pt_lim gr1 t (gr2 t)) ->
+  (forall t, (Rmin 0 dl <= t <= Rmax 0 dl)%R -> (Rabs (gr2 t) <= Br)%R) ->
+  (forall t, (Rmin 0 dl <= t <= Rmax 0 dl)%R -> derivable_pt_lim gi t (gi1 t)) ->
+  (forall t, (Rmin 0 dl <= t <= Rmax 0 dl)%R -> derivable_pt_lim gi1 t (gi2 t)) ->
+  (forall t, (Rmin 0 dl <= t <= Rmax 0 dl)%R -> (Rabs (gi2 t) <= Bi)%R) ->
+  exists q : SolveC.ACR, mget J i j = Ok q /\
+    (Rabs (Complex.re q - gr1 0) <= Rabs dl / 2 * Br)%R /\ (Rabs (Complex.im q - gi1 0) <= Rabs dl / 2 * Bi)%R.
+Print Assumptions jacobian_truncation_C.
+
+(* F(z) = (z^2) at z = 1 + i, delta = 1/4: re f(1 + t + i) = (1 + t)^2 - 1, im f(1 + t + i) = 2 (1 + t) *)
+Example jacobian_truncation_C_nonvacuous :
+  exists J evs, jacobian Newton2Inst.NCR Newton2JacC.Fwc [Complex.mkC (A:=SolveR.AR) 1%R 1%R] (emb Newton2Inst.NCR (1 / 4)%R) = Ok (J, evs) /\
+    0 < rows J /\
+    (forall t, (Rmin 0 (1 / 4) <= t <= Rmax 0 (1 / 4))%R ->
+       exists v, Newton2JacC.Fwc (perturbed Newton2Inst.NCR [Complex.mkC (A:=SolveR.AR) 1%R 1%R] (Complex.mkC (A:=SolveR.AR) t 0%R) 0) = Ok v /\
+                 Complex.re (nth 0 v (zero : SolveC.ACR)) = ((1 + t) * (1 + t) - 1)%R /\
+                 Complex.im (nth 0 v (zero : SolveC.ACR)) = (2 * (1 + t))%R) /\
+    (forall t, derivable_pt_lim (fun t => (1 + t) * (1 + t) - 1)%R t (2 * (1 + t))%R) /\
+    (forall t, derivable_pt_lim (fun t => 2 * (1 + t))%R t 2%R) /\ (Rabs 2 <= 2)%R /\
+    (forall t, derivable_pt_lim (fun _ : R => 2%R) t 0%R) /\ (Rabs 0 <= 0)%R.
+Proof. exact Newton2JacC.jacobian_truncation_C_witness. Qed.
+
+(* exactness beyond affine maps: the finite-difference Jacobian of a DECOUPLED map F(x)_i = f_i(x_i) is exactly diagonal
+   over R, for every dimension: off the diagonal the quotient is (f_i(x_i) - f_i(x_i)) / delta = 0 *)
+From OV Require Proofs.SolveBase Proofs.Newton2Sys1d Proofs.Newton2DiagFD.
+Theorem jacobian_decoupled_diagonal : forall (dim : nat) (f : nat -> R -> R) (F : list R -> res (list R)),
+  (forall x, length x = dim ->
+     exists v, F x = Ok v /\ length v = dim /\ forall i, i < dim -> nth i v 0%R = f i (nth i x 0%R)) ->
+  forall (x : list R) (d : R), length x = dim -> d <> 0%R ->
+  exists J evs, jacobian NRl F x d = Ok (J, evs) /\ wf J /\ rows J = dim /\ cols J = dim /\
+    forall i j, i < dim -> j < dim ->
+      SolveBase.ent J i j = if i =? j then ((f i (nth i x 0 + d) - f i (nth i x 0)) / d)%R else 0%R.
+Proof. exact Newton2DiagFD.jacobian_decoupled. Qed.
+Check jacobian_decoupled_diagonal : forall (dim : nat) (f : nat -> R -> R) (F : list R -> res (list R)),
+  (forall x, length x = dim ->
+     exists v, F x = Ok v /\ length v = dim /\ forall i, i < dim -> nth i v 0%R = f i (nth i x 0%R)) ->
+  forall (x : list R) (d : R), length x = dim -> d <> 0%R ->
+  exists J evs, jacobian NRl F x d = Ok (J, evs) /\ wf J /\ rows J = dim /\ cols J = dim /\
+    forall i j, i < dim -> j < dim ->
+      SolveBase.ent J i j = if i =? j then ((f i (nth i x 0 + d) - f i (nth i x 0)) / d)%R else 0%R.
+Print Assumptions jacobian_decoupled_diagonal.
+(* F(x, y) = (x^3 - 2, y^3 - 2) is decoupled *)
+From OV Require Proofs.Newton2Wit.
+Example jacobian_decoupled_diagonal_nonvacuous :
+  (forall x, length x = 2 ->
+     exists v, Newton2Wit.F2w x = Ok v /\ length v = 2 /\
+       forall i, i < 2 -> nth i v 0%R = (fun _ : nat => Newton2Wit.cube2) i (nth i x 0%R)) /\
+  length [1%R; 2%R] = 2 /\ (1 / 4)%R <> 0%R.
+Proof. split; [exact Newton2Wit.F2w_spec|]. split; [reflexivity|]. apply Rgt_not_eq. lra. Qed.
 (* ---- tie of the model to the source of this run (package r2c2): gen/SrcNewton.v / gen/SrcNewtonC.v are regenerated from
    src/newton.rs and src/matrix/functions.rs by driver/rust2coq.py on every check run; Proofs/SrcEqNewton.v and
    Proofs/SrcEqNewtonC.v prove ERASURE -- each of the six regenerated solve methods and of the two finite-difference Jacobians
